@@ -86,6 +86,23 @@ class Gen:
                 self.features.add("var_top")
             else:
                 stmts.append(["obj", self.template(0, p[1], p[2], top=True)])
+        # dual forward reference: an earlier template refers to a later one both by nickname
+        # and by table name (two slots reserved for one template)
+        if rng.random() < self.w.get("dual_fwd", 0.08):
+            objs = [i for i, st in enumerate(stmts) if st[0] == "obj"]
+            targets = [i for i in objs[1:] if stmts[i][1].get("nick") and stmts[i][1]["table"] != HIDDEN_TABLE
+                       and stmts[i][1]["nick"] not in self.TABLES]
+            if targets:
+                j = rng.choice(targets)
+                i = rng.choice([k for k in objs if k < j])
+                tgt = stmts[j][1]
+                order = [["fz1", ["ref", tgt["nick"]]], ["fz2", ["ref", tgt["table"]]]]
+                if rng.random() < 0.5:
+                    order.reverse()
+                stmts[i][1]["fields"].extend(order)
+                if rng.random() < 0.7:
+                    tgt["count"] = ["int", rng.randint(2, 3)]
+                self.features.add("dual_forward_ref")
         return {"version": self.version, "options": self.options, "stmts": stmts}
 
     def template(self, depth, table=None, nick=None, top=False):
@@ -278,14 +295,17 @@ def fdef_yaml(d):
 
 def template_yaml(t):
     y = {"object": t["table"]}
+    if t.get("include"):
+        y["include"] = ", ".join(t["include"])
     if t.get("nick"):
         y["nickname"] = t["nick"]
     if t.get("once"):
         y["just_once"] = True
     if t.get("count") is not None:
         y["count"] = fdef_yaml(t["count"])
-    if t["fields"]:
-        y["fields"] = {n: fdef_yaml(d) for n, d in t["fields"]}
+    own = t["own_fields"] if t.get("include") else t["fields"]
+    if own:
+        y["fields"] = {n: fdef_yaml(d) for n, d in own}
     if t["friends"]:
         y["friends"] = [stmt_yaml(s) for s in t["friends"]]
     return y
@@ -302,6 +322,8 @@ def recipe_yaml(r):
     doc = [{"snowfakery_version": r["version"]}]
     for n, v in r["options"]:
         doc.append({"option": n, "default": v})
+    for name, fields in r.get("macros", []):
+        doc.append({"macro": name, "fields": {n: fdef_yaml(d) for n, d in fields}})
     doc.extend(stmt_yaml(s) for s in r["stmts"])
     return yaml.safe_dump(doc, sort_keys=False, default_flow_style=False, width=1000)
 
@@ -528,3 +550,30 @@ def walk_templates(recipe):
 
     for s in recipe["stmts"]:
         yield from rec_s(s)
+
+
+def factor_into_macros(rng, recipe):
+    """Metamorphic factoring used by C03: move leading fields of a top-level template into a
+    macro it includes, optionally with a junk definition in the macro that the template's own
+    field overrides.  The documented rule (macro fields first, own definitions win, every name
+    at its first position) makes the expanded template — kept in "fields", which is what the
+    model receives — identical to the original one."""
+    cands = [s[1] for s in recipe["stmts"] if s[0] == "obj" and len(s[1]["fields"]) >= 2
+             and not any(d[0] == "nested" for _, d in s[1]["fields"])]
+    if not cands:
+        return False
+    t = rng.choice(cands)
+    fields = t["fields"]
+    k = rng.randint(1, len(fields) - 1)
+    macro_fields = [list(f) for f in fields[:k]]
+    own = [list(f) for f in fields[k:]]
+    if rng.random() < 0.6:
+        j = rng.randrange(k)                       # overridden field: junk in the macro, real one own
+        real = macro_fields[j]
+        macro_fields[j] = [real[0], ["int", 99]]
+        own.insert(rng.randint(0, len(own)), real)
+    name = "m%d" % (len(recipe.get("macros", [])) + 1)
+    recipe.setdefault("macros", []).append([name, macro_fields])
+    t["include"] = [name]
+    t["own_fields"] = own
+    return True
